@@ -130,7 +130,9 @@ def build_program(shape: str, pattern: str, deps: tuple, extras: str, pos: str =
             steps.append(("gate", "g"))
             if pos == "after":
                 steps += gets
-            if pub != "res" and (p, phase) in providers:
+            if pub == "falsy" and (p, phase) in providers:
+                steps.append(("add", "RAF", resname(p, phase), f"{p}:{phase}"))  # a falsy value is still a resource
+            elif pub != "res" and (p, phase) in providers:
                 steps.append(("addf", "RA", resname(p, phase), f"{p}:{phase}", pub))
             else:
                 steps.append(("add", "RA", resname(p, phase), f"{p}:{phase}", extras == "tdres"))
@@ -199,7 +201,7 @@ class C05(E1Check):
                 for deps in depsets:
                     for extras in (("plain", "tdres", "svc", "gen") if not deps else ("plain",)):
                         for pos in (("before", "after", "opt") if deps else ("before",)):
-                            for pub in (("res", "sync", "async", "union") if len(deps) == 1 else ("res",)):
+                            for pub in (("res", "sync", "async", "union", "falsy") if len(deps) == 1 else ("res",)):
                                 if pattern == "inherited" and (pub != "res" or pos != "before"):
                                     continue
                                 if pos == "opt" and (pub != "res" or not all(certainly_before(SHAPES[shape], *d) for d in deps)):
